@@ -23,6 +23,7 @@ FieldsMatch(o, r) ==
 PrefixLaw(k) == \A j \in 1..NK(k) : Out(k, j).k \in {"need", "rej"} \/ Out(k, j) = Out(k, NK(k))
 POk(k) ==
   LET r == Decode(k.s) IN
+  /\ ~k.abort             \* the parser terminated the process (sanitizer report, assertion) on some prefix
   /\ PrefixLaw(k)
   /\ CASE r.kind = "need" -> \A j \in 1..NK(k) : Out(k, j).k \in {"need", "rej"}
        [] r.kind = "rej" -> \A j \in 1..NK(k) : IF k.ks[j] >= r.cp THEN Out(k, j).k = "rej" ELSE Out(k, j).k \in {"need", "rej"}
@@ -36,7 +37,7 @@ ImplRejectAt(s, r) ==
   ELSE 12
 IOk(k) ==
   LET r == Decode(k.s) IN
-  /\ ~k.ub
+  /\ ~k.ub /\ ~k.abort
   /\ CASE r.kind = "rej" -> \A j \in 1..NK(k) : Out(k, j).k = (IF k.ks[j] >= ImplRejectAt(k.s, r) THEN "rej" ELSE "need")
        [] r.kind = "hdr" /\ r.mode = "none" -> \A j \in 1..NK(k) : k.ks[j] >= r.cp => ~Out(k, j).hasaddr /\ Out(k, j).tlvs = <<>>
        [] r.kind = "hdr" /\ r.mode = "unix" -> \A j \in 1..NK(k) : k.ks[j] >= r.cp => Out(k, j).fwd /\ Out(k, j).sa = Zeros(16)
